@@ -22,7 +22,9 @@ RULE = ("generated programs: a source tree (depth <= 4, bool/int/float/str scala
         "slice form, own/adopted units, imports "
         "({?p.*}, {?p}, {?*}, bare under a group and prefixed), later modifications of source, host and imported "
         "nodes, property lines; plus a malformed stream (no/several matches, empty imports, bad slices, unknown "
-        "sources), histories of parses over files rewritten between the parses, and the corpus of recon inputs "
+        "sources), histories of parses over files rewritten between the parses, base environments without nodes "
+        "(empty / units prelude) parsed on twice, imports of remote custom units with and without a clashing local "
+        "name, and the corpus of recon inputs "
         "first; non-trivial = program with at least one injection or "
         "import that the specification accepts or rejects (not 'outside'); distinct = canonical JSON of the program")
 ASSUMPTIONS = [
@@ -44,6 +46,9 @@ ASSUMPTIONS = [
     "unit conversion uses the regenerated affine table (a*x+b into the first unit of the dimension) of the 12 units "
     "the generator uses, temperatures K/Cel/degF included (Generated/C17Units.lean); the table is cross-checked "
     "against live Quantity conversions on every run",
+    "custom units `$unit name = value unit` with a linear unit extend the conversion table of their program "
+    "(1 [name] = value * unit); a program uses a custom unit in nodes only after defining or importing it, and names "
+    "are unique per program except in the clash programs, which end at the refused `$unit {src?*}` line",
     "an impl != model difference on a program the specification calls 'outside' (malformed programs, ill-formed "
     "slices / query texts) is counted and noted, never a failure",
     "C17_base_unchanged / C17_query_copy_deep are proved for the heap view of copy.deepcopy (fresh objects + writes "
@@ -277,6 +282,8 @@ def line_text(l):
     if k == "unit":
         rhs = value_text(l["val"]) if "val" in l else l["value"]
         return "%s$unit %s = %s%s" % (ind, l["name"], rhs, " " + l["unit"] if l.get("unit") else "")
+    if k == "unitimp":
+        return "%s$unit {%s?%s}" % (ind, l["source"], l.get("name") or "*")
     if k == "case":
         if l["kind"] == "cond":
             return "%s@case %s" % (ind, value_text(l["val"]))
@@ -315,6 +322,8 @@ def model_item(l):
         if "val" in l:
             return {"t": "unit", "name": l["name"], "ref": ref_text(l["val"]["ref"]), "unit": l.get("unit")}
         return {"t": "unit", "name": l["name"], "value": val_json({"n": l["value"]}), "unit": l.get("unit")}
+    if k == "unitimp":
+        return {"t": "unitimp", "source": l["source"], "name": l.get("name")}
     if k == "case":
         it = {"t": "case", "indent": l["indent"], "kind": l["kind"]}
         if l["kind"] == "cond":
@@ -369,6 +378,8 @@ def spec_stmt(l):
     if k == "unit":
         v = spec_val(l["val"]) if "val" in l else {"lit": val_json({"n": l["value"]})}
         return {"t": "unitdef", "name": l["name"], "v": v, "unit": l.get("unit")}
+    if k == "unitimp":
+        return {"t": "unitimp", "source": l["source"], "name": l.get("name")}
     if k == "case":
         if l["kind"] == "cond":
             return {"t": "case", "v": spec_val(l["val"])}
@@ -394,8 +405,26 @@ def stmts_of(lines):
     return [s for s in (spec_stmt(l) for l in lines) if s is not None]
 
 
+def program_table(prog):
+    """the regenerated unit table plus the program's custom units `$unit name = value unit` (literal, linear unit):
+    1 [name] = value * unit"""
+    tbl = list(unit_table())
+    known = {r[0]: r for r in tbl}
+    seen = set()
+    lines = [l for s_ in prog["sources"] for l in s_["lines"]] + (prog.get("base") or []) + prog["main"]
+    for l in lines:
+        if l["k"] == "unit" and "value" in l and l.get("unit") in known and l["name"] not in seen:
+            r = known[l["unit"]]
+            if r[3][0] != 0:
+                continue
+            seen.add(l["name"])
+            a = Fraction(l["value"]) * Fraction(r[2][0], r[2][1])
+            tbl.append(["[%s]" % l["name"], r[1], [a.numerator, a.denominator], [0, 1]])
+    return tbl
+
+
 def request_of(prog):
-    return {"p": "C17", "k": "prog", "tbl": unit_table(),
+    return {"p": "C17", "k": "prog", "tbl": program_table(prog),
             "model": {"sources": [{"name": s["name"], "items": [model_item(l) for l in s["lines"]]} for s in prog["sources"]],
                       "base": None if prog.get("base") is None else [model_item(l) for l in prog["base"]],
                       "main": [model_item(l) for l in prog["main"]]},
@@ -513,6 +542,17 @@ def run_impl(prog, file_tag=None, keep_files=False):
             if base_env is not None:
                 out["base_after"] = env_snapshot(base_env)
                 out["base_src_after"] = sources_snapshot(base_env, names)
+                # the same program once more on the same base: it must see the base as the first parse saw it
+                p3 = DIP(base_env, name=tag + "n")
+                _keep.append(p3)
+                p3.add_string(text_of(prog["main"]))
+                try:
+                    second = {"status": "ok", "env": env_snapshot(p3.parse())}
+                except Exception as e:
+                    second = {"status": "err"}
+                first = {"status": out["status"], "env": out.get("env")} if out["status"] == "ok" else {"status": "err"}
+                out["second_same"] = (first == second)
+                out["base_after2"] = env_snapshot(base_env)
         finally:
             del _keep[:-40]
     finally:
@@ -626,6 +666,9 @@ def judge(ctx, prog, imp, res, stream):
                                json.dumps(imp["base_after"][part], default=str)[:300]),
                               dict(replay, impl_before=imp["base_before"][part], impl_after=imp["base_after"][part]))
                 break
+        if not imp.get("second_same", True) or imp.get("base_after2", imp["base_after"]) != imp["base_before"]:
+            ctx.violation("base:reuse", "a second parse of the same text on the same base environment does not give what "
+                          "the first gave (or changed the base)", dict(replay))
         if imp["base_src_before"] != imp["base_src_after"]:
             ctx.violation("remote:nodes", "parsing on top of a base environment changed the nodes of a remote source",
                           dict(replay, impl_before=imp["base_src_before"], impl_after=imp["base_src_after"]))
@@ -677,7 +720,7 @@ def judge(ctx, prog, imp, res, stream):
         return "outside"
     if spec == "rejected":
         if not i_err:
-            ctx.violation("count:accepted", "an injection whose request selects no node or several was accepted: %s" %
+            ctx.violation("count:accepted", "a program that must be rejected (an injection selecting no node or several, or a `$unit {src?..}` import of a name that exists already) was accepted: %s" %
                           replay["text"]["main"][:300], replay)
         return "rejected"
     if i_err:
@@ -959,7 +1002,7 @@ def import_names(cat, q, dest):
 
 def gen_program(rng, malformed=False):
     g = Gen(rng)
-    mode = rng.choice(["local", "local", "remote", "remote", "base", "base+remote"])
+    mode = rng.choice(["local", "local", "remote", "remote", "base", "base+remote", "prelude"])
     prog = {"sources": [], "base": None, "main": []}
     tree_lines = []
     tcat = {}
@@ -972,6 +1015,14 @@ def gen_program(rng, malformed=False):
         tree_lines.append({"k": "unit", "indent": 0, "name": rng.choice(["len", "tick"]),
                            "value": num(rng.randint(1, 50), 1)["n"], "unit": rng.choice(UNITS)})
     source = None
+    custom = None
+    if mode in ("remote", "base+remote") and rng.random() < 0.35:
+        # the remote file defines a custom unit and a node in that unit (first lines of the file)
+        cu = rng.choice(["m", "cm", "km", "mm", "s", "ms", "min", "g", "kg"])
+        custom = {"unit": cu, "fam": [f for f in FAMILIES if cu in f][0]}
+        tree_lines = [{"k": "unit", "indent": 0, "name": "cl", "value": num(rng.randint(1, 90), 1)["n"], "unit": cu},
+                      {"k": "def", "indent": 0, "name": "cw", "path": ["cw"], "kw": "float", "dims": [],
+                       "val": {"lit": num(rng.randint(1, 999), 1)}, "unit": "[cl]"}] + tree_lines
     if mode in ("remote", "base+remote"):
         prog["sources"].append({"name": "src", "lines": tree_lines})
         source = "src"
@@ -988,10 +1039,31 @@ def gen_program(rng, malformed=False):
     elif mode == "base":
         prog["base"] = tree_lines
         g.cat = tcat
+    elif mode == "prelude":
+        # a base environment WITHOUT nodes: empty, or a prelude of custom units only
+        prog["base"] = [{"k": "unit", "indent": 0, "name": "pl%d" % i, "value": num(rng.randint(1, 50), 1)["n"],
+                         "unit": rng.choice(UNITS)} for i in range(rng.randint(0, 2))]
+        prog["main"] = tree_lines
+        g.cat = tcat
     else:
         prog["main"] = tree_lines
         g.cat = tcat
     main = prog["main"]
+    if custom:
+        r0 = rng.random()
+        if r0 < 0.3:
+            # a DIFFERENT unit of the same name exists locally: the unit import must be refused
+            main.append({"k": "unit", "indent": 0, "name": "cl", "value": num(rng.randint(1, 90), 1)["n"],
+                         "unit": rng.choice(custom["fam"])})
+            main.append({"k": "unitimp", "indent": 0, "source": "src", "name": rng.choice([None, "cl"])})
+            return prog
+        main.append({"k": "unitimp", "indent": 0, "source": "src", "name": None})
+        cref = {"ref": {"source": "src", "q": ["exact", ["cw"]], "slices": []}}
+        main.append({"k": "def", "indent": 0, "name": "cuw", "path": ["cuw"], "kw": "float", "dims": [], "val": cref, "unit": None})
+        main.append({"k": "def", "indent": 0, "name": "cut", "path": ["cut"], "kw": "float", "dims": [],
+                     "val": {"lit": num(1)}, "unit": rng.choice(custom["fam"])})
+        main.append({"k": "mod", "indent": 0, "name": "cut", "path": ["cut"], "val": cref, "unit": None})
+        main.append({"k": "imp", "indent": 0, "prefix": "cui", "dest": ["cui"], "source": "src", "q": ["exact", ["cw"]]})
     nact = rng.randint(2, 7)
     for _ in range(nact):
         # where do we reference: remote catalogue or local one
@@ -1421,6 +1493,27 @@ def corpus():
         L("case", indent=0, kind="else"), body("ef"), L("case", indent=0, kind="end")]}))
     progs.append(("case-chain-missing-reference", {"sources": [], "base": None, "main": [
         flag("hy", False), cond("hy"), body("ab"), cond("nosuchflag"), body("cd"), L("case", indent=0, kind="end")]}))
+    # base environments WITHOUT nodes (units prelude / empty): parsed on twice, must stay as they were
+    pre_main = [L("unit", indent=0, name="wid", value="3", unit="cm"),
+                L("group", indent=0, name="box"),
+                L("def", indent=2, name="a", path=["box", "a"], kw="float", dims=[], val={"lit": F(2)}, unit="cm"),
+                L("def", indent=2, name="b", path=["box", "b"], kw="float", dims=[], val=ref(["exact", ["box", "a"]]), unit="mm"),
+                L("imp", indent=0, prefix="copy", dest=["copy"], source=None, q=["children", ["box"]])]
+    progs.append(("base-units-prelude", {"sources": [], "main": pre_main,
+                                         "base": [L("unit", indent=0, name="len", value="2", unit="cm")]}))
+    progs.append(("base-empty", {"sources": [], "main": pre_main, "base": []}))
+    # import of the custom units of a remote file; a clashing local unit of the same name is refused
+    rem = [L("unit", indent=0, name="cl", value="2", unit="cm"),
+           L("def", indent=0, name="width", path=["width"], kw="float", dims=[], val={"lit": F(3)}, unit="[cl]")]
+    wref = ref(["exact", ["width"]], source="src")
+    progs.append(("unit-import", {"sources": [{"name": "src", "lines": rem}], "base": None, "main": [
+        L("unitimp", indent=0, source="src", name=None),
+        L("def", indent=0, name="w", path=["w"], kw="float", dims=[], val=wref, unit=None),
+        L("def", indent=0, name="total", path=["total"], kw="float", dims=[], val={"lit": F(1)}, unit="mm"),
+        L("mod", indent=0, name="total", path=["total"], val=wref, unit=None)]}))
+    progs.append(("unit-import-clash", {"sources": [{"name": "src", "lines": rem}], "base": None, "main": [
+        L("unit", indent=0, name="cl", value="1", unit="m"),
+        L("unitimp", indent=0, source="src", name=None)]}))
     # base environment
     progs.append(("base", {"sources": [], "main": [
         L("mod", indent=0, name="a", path=["a"], val={"lit": F(5)}, unit="m"),
